@@ -6,37 +6,34 @@
     theorem fillWly_ok (r p n l) (hr : WfRule r) (hp : WfInst p) (hn : n ≤ 64) (h : fillWly r p n = some l) : FillOk r p n l
     theorem fillWly_total (r p n) (hr : WfRule r) (hp : WfInst p) (hn : n ≤ 64) : (fillWly r p n).isSome
 
-  `fillWly_ok` is FALSE as it stands, for two independent reasons (counterexamples evaluated on the model):
+  `fillWly_total` is proved as it stands.  `fillWly_ok` is FALSE as it stands: an all-day seed (H = ALL_DAY) with
+  BYMINUTE or BYSECOND but no BYHOUR gets instants with H = ALL_DAY and a non-zero minute / second, which are not
+  `WfInst`, e.g.
+    r = { freq := 3, M := [30] }, p = 2020-01-01 (all day):  fillWly r p 3 = 2020-01-01 H=255 M=30, 01-08 …, 01-15 …
+  It is proved under the extra hypothesis `TimeOk r p` (RrOkBase) as `fillWly_ok_partial`.
 
-  1. the loop increment `d += rr->inter * 7U` is `unsigned int` arithmetic.  For INTERVAL ≥ 613566753 (still an `int`,
-     so `WfRule` holds) `d + inter * 7` can wrap and the candidate date moves BACKWARDS, e.g.
-       r = { freq := 3, inter := 613566756, dow := [1,2,3,4,5,6,7] }   (inter * 7 = 2^32 - 4),
-       p = 2020-01-15T10:00:00:  fillWly r p 12 = 15th 16th 17th 18th 19th, 15th (again) …: not ascending;
-     likewise inter := 1227133513 (inter * 7 = 2^33 - 1, the step is -1 day).
-     Extra hypothesis: `r.inter * 7 + 31 < 4294967296` (`d ≤ 31` at the loop head, so the sum cannot wrap; note that
-     `r.inter * 7 < 4294967296` alone is not enough, see the first example).
-  2. an all-day seed (H = ALL_DAY) with BYMINUTE or BYSECOND but no BYHOUR gets instants with H = ALL_DAY and a
-     non-zero minute / second, which are not `WfInst`, e.g.
-       r = { freq := 3, M := [30] }, p = 2020-01-01 (all day):  fillWly r p 3 = 2020-01-01 H=255 M=30, …
-     Extra hypothesis: `TimeOk r p` (an all-day seed without BYHOUR has neither BYMINUTE nor BYSECOND).
-
-  `fillWly_total` is proved under the first extra hypothesis only (the wrapping case is left open: there the day
-  number shrinks for up to 31 rounds, then the carry runs far beyond 2099; the fuel should suffice but the date
-  invariant of this proof does not hold on that path).  `hn : n ≤ 64` is not needed.
+  History: before the guard `if (rr->inter > (UINT_MAX - 31U) / 7U) goto fin;` was put in front of the loop increment
+  `d += rr->inter * 7U` (`unsigned int` arithmetic), `fillWly_ok` was false for a second reason: for INTERVAL ≥ 613566753
+  (still an `int`, so `WfRule` holds) `d + inter * 7` could wrap and the candidate date moved BACKWARDS, e.g.
+    r = { freq := 3, inter := 613566756, dow := [1,2,3,4,5,6,7] }   (inter * 7 = 2^32 - 4),
+    p = 2020-01-15T10:00:00:  fillWly r p 12 = 15th 16th 17th 18th 19th, 15th (again) …: not ascending
+  (likewise inter := 1227133513, inter * 7 = 2^33 - 1, a step of -1 day).  With the guard the loop ends after the first
+  week for such an INTERVAL, and `r.inter * 7 + 31 < 2^32` holds whenever the increment is computed.
+  `hn : n ≤ 64` is not needed.
 -/
 import Echse.Lemmas.RrWlyLoop
 namespace Echse.Lemmas.RrWlyOk
 open Echse.Rrule Echse.Instant Echse.Spec.RrOk
 open Echse.Lemmas.RrOkBase
 
-theorem fillWly_total_partial (r : Rule) (p : Inst) (n : Nat) (hr : WfRule r) (hp : WfInst p)
-    (hk : r.inter * 7 + 31 < 4294967296) : (fillWly r p n).isSome := by
-  obtain ⟨l, hl, -⟩ := fillWly_spec r p n hr hp hk
+theorem fillWly_total (r : Rule) (p : Inst) (n : Nat) (hr : WfRule r) (hp : WfInst p) (_hn : n ≤ 64) :
+    (fillWly r p n).isSome := by
+  obtain ⟨l, hl, -⟩ := fillWly_spec r p n hr hp
   rw [hl]; rfl
 
 theorem fillWly_ok_partial (r : Rule) (p : Inst) (n : Nat) (l : List Inst) (hr : WfRule r) (hp : WfInst p)
-    (hk : r.inter * 7 + 31 < 4294967296) (ht : TimeOk r p) (h : fillWly r p n = some l) : FillOk r p n l := by
-  obtain ⟨l', hl, hok⟩ := fillWly_spec r p n hr hp hk
+    (_hn : n ≤ 64) (ht : TimeOk r p) (h : fillWly r p n = some l) : FillOk r p n l := by
+  obtain ⟨l', hl, hok⟩ := fillWly_spec r p n hr hp
   rw [hl] at h
   cases h
   exact hok ht
